@@ -254,6 +254,7 @@ PROPS = {
         essential_classes=["exchange-genuine:accepted<-verify-right", "exchange-zero-key<-verify-A-zero", "exchange-zero-key<-verify-right", "exchange-replayed<-verify-right", "exchange-second-identity<-verify-right", "exchange-empty-secret<-verify-A-zero-public-proof", "two-connections", "regress", "burst>=10-failed-attempts"],
         jobs=[
             dict(test="TestC02Regress", kind="plain"),
+            dict(test="TestC02LongNames", kind="plain"),
             dict(test="TestC02Prop", kind="rapid", checks={Q: 60, T: 2500}, shards=16),
         ],
     ),
